@@ -434,7 +434,7 @@ def run(ctx):
     # refused exactly when it leaves a specification without a C3 order
     for impl in ('c', 'py'):
         cfg = dict(oracle='c03-strict', maxb=2, decl_ops=False)     # (a refused declaration call leaves no trace of what it attempted)
-        r = bfs(ctx, impl, 'expand', cfg, int(ctx.opts.get('strict_depth', 3 if quick else 4)), label='rebase-strict',
+        r = bfs(ctx, impl, 'expand', cfg, int(ctx.opts.get('strict_depth', 4)), label='rebase-strict',
                 pool_kw=dict(mod='c02', extra_env=ENVS['strict']))
         ctx.add(states=r['states'], transitions=r['transitions'],
                 evaluations=r['transitions'])
